@@ -261,6 +261,20 @@ Theorem C15_fit_bisect : forall k E (n : nat) V T cap,
 Proof. exact fit_bisect. Qed.
 Print Assumptions C15_fit_bisect.
 
+(* in particular 64 halvings suffice whenever max_dsoc * stay <= 1e9 (CPython allows ~1000) *)
+Theorem C15_fit_bisect_64 : forall E (n : nat) V T cap,
+  0 < V -> 0 < T -> 0 < cap -> 0 <= E -> (0 < n)%nat ->
+  closed_form_test E (INR n) V T cap = false ->
+  let m := Fit_max_dsoc T V cap in
+  E / cap <= Fit_delta_from m (INR n) Fit_transition_soc 0 ->
+  m * INR n <= 1000000000 ->
+  exists x,
+    get_init_cap_R 64 E (INR n) V T cap = FVR (x * cap) /\
+    4/5 - m * INR n <= x <= 1 /\
+    Rabs (Fit_delta_from m (INR n) Fit_transition_soc x - E / cap) < tol9.
+Proof. exact fit_bisect_64. Qed.
+Print Assumptions C15_fit_bisect_64.
+
 (* the same delivery statement for whatever _get_init_cap returned (any fuel).
    _partial: the full statement has no hypothesis `init <= 4/5 * cap`; the bisection may stop at a
    point a hair above the transition, where the battery follows the other closed form. *)
